@@ -17,6 +17,7 @@ import (
 	"strconv"
 	"strings"
 	"sync"
+	"syscall"
 	"time"
 )
 
@@ -60,6 +61,7 @@ type workerProc struct {
 
 func startWorker(self, cfgPath string) (*workerProc, error) {
 	cmd := exec.Command(self, "worker", cfgPath)
+	cmd.SysProcAttr = &syscall.SysProcAttr{Pdeathsig: syscall.SIGKILL}
 	cmd.Stderr = os.Stderr
 	cmd.Env = goEnv()
 	in, err := cmd.StdinPipe()
